@@ -263,3 +263,67 @@ def origin_summary(fn, op):
         else:
             out.append('%s %s' % (t[0], str(t[1])[:80]))
     return out
+
+
+# --------------------------------------------------------------------------- enum matches
+def enum_switches(fn, adt_pat=None):
+    """Switches on the discriminant of an enum value: list of dict(bb, adt, place, arms{variant idx->target}, otherwise)."""
+    out = []
+    for i, b in enumerate(fn.blocks):
+        t = b['t']
+        if t['k'] != 'switch' or t['ty'] != 'isize':
+            continue
+        p = op_place(t['d'])
+        if p is None or not is_bare(p):
+            continue
+        for d in fn.defs_of(p['l']):
+            if d[0] == 'assign' and d[3]['k'] == 'discr':
+                adt = d[3].get('adt')
+                if adt_pat is None or path_matches(adt, adt_pat):
+                    out.append({'bb': i, 'adt': adt, 'place': d[3]['p'], 'arms': {int(v): tgt for v, tgt in t['ts']}, 'otherwise': t['else']})
+    return out
+
+
+def edge_region(fn, src, dst):
+    """Blocks that every path from the entry reaches only through the edge src->dst."""
+    return fn.reachable(0) - fn.reachable(0, blocked_edges=[(src, dst)])
+
+
+def variant_names(prog, adt):
+    return [v['n'] for v in prog.adts[adt]['variants']]
+
+
+def eq_branches(fn):
+    """Branches on the bool returned by a PartialEq::eq / ne call: dict(bb, call, equal, differ)."""
+    out = []
+    for b in branches_on_call(fn, lambda c: c.name() in ('eq', 'ne') and 'PartialEq' in ((c.callee or '') + (c.resolved or ''))):
+        c = b['call']
+        if c.name() == 'eq':
+            out.append({'bb': b['bb'], 'call': c, 'equal': b['true'], 'differ': b['false']})
+        else:
+            out.append({'bb': b['bb'], 'call': c, 'equal': b['false'], 'differ': b['true']})
+    return out
+
+
+def derives_from_field(fn, op, adt_pat, field):
+    """True if the operand's (wide) provenance includes a place going through field `field` of parameter/ADT."""
+    for t in fn.origin(op, wide=True):
+        if t[0] in ('arg', 'call', 'agg', 'rv') and ('.' + field) in t[2]:
+            return True
+    return False
+
+
+def derives_from_call(fn, op, pat):
+    for t in fn.origin(op, wide=True):
+        if t[0] == 'call' and (path_matches(t[1].callee, pat) or path_matches(t[1].resolved, pat)):
+            return True
+    return False
+
+
+def loop_of(fn, bb):
+    """innermost natural loop (head, body) containing bb, or None"""
+    best = None
+    for h, body in fn.natural_loops():
+        if bb in body and (best is None or len(body) < len(best[1])):
+            best = (h, body)
+    return best
